@@ -155,13 +155,6 @@ func c01Sweep(r *c01Runner, dotted bool) int {
 	for _, l := range c01SweepLhss(dotted) {
 		for _, op := range ops {
 			for _, lit := range c01SweepLits() {
-				strMode := op == "contains" || op == "ncontains" || op == "icontains" || op == "nicontains"
-				if !l.whole && strMode {
-					continue
-				}
-				if lit.k == 'F' && lit.ftxt == "1.5" && (strMode || l.lhs.name == "name" || l.lhs.name == "nick" || l.lhs.name == "id" || l.lhs.name == "place" || l.lhs.name == "nothing" || l.lhs.k == "all" || l.lhs.k == "any") {
-					continue // FormatFloat of a non-integral literal: outside the model
-				}
 				run(&c01Filter{k: "bin", lhs: l.lhs, op: op, lit: lit})
 			}
 		}
@@ -175,9 +168,6 @@ func c01Sweep(r *c01Runner, dotted bool) int {
 			{"AD", []*c01Lit{{k: 'D', sec: 1600000000, ns: 0, zone: 2}, {k: 'D', sec: 0, ns: 0}}},
 		}
 		for _, a := range arrs {
-			if !l.whole && a.k == "AS" {
-				continue
-			}
 			for _, neg := range []bool{false, true} {
 				run(&c01Filter{k: "in", lhs: l.lhs, neg: neg, arrK: a.k, arr: a.arr})
 			}
